@@ -24,6 +24,7 @@ import os
 import re
 import signal
 import textwrap
+import time
 import types
 import typing
 import unicodedata
@@ -206,7 +207,7 @@ def probes(ctx):
     info_unicode = pi.metadata.title == "Pr\u20acis"
     from types import SimpleNamespace
     from sharepoint2text.parsing.extractors.ms_legacy import ppt_extractor as ppx
-    fake = SimpleNamespace(get_metadata=lambda: SimpleNamespace(title=b"\xf6", codepage=1252))
+    fake = SimpleNamespace(get_metadata=lambda: SimpleNamespace(title=b"\xf6", codepage=1252), exists=lambda name: False)
     ole_cp = ppx._extract_metadata(fake).title == "\u00f6"
     return odf_guard, rtf_repair, path_guard, info_unicode, ole_cp
 
@@ -1080,13 +1081,108 @@ def run_fixtures(ctx):
     ctx.obligation("sweep:fixtures yield results", n_results >= 60, f"only {n_results} results from fixtures")
 
 
+class _ChildCtx:
+    """What exercise() needs from a Ctx, inside a forked worker: every record goes to the parent as a JSON line."""
+    def __init__(self, ctx, fd):
+        self.tier, self.seed, self.extra, self._fd = ctx.tier, ctx.seed, {}, fd
+
+    def _send(self, rec):
+        import json
+        os.write(self._fd, (json.dumps(common._jsonable(rec), ensure_ascii=True) + "\n").encode("ascii"))
+
+    def finding(self, key, what, replay, found_input=True):
+        self._send(["f", key, what, replay])
+
+    def case(self, canon, nontrivial, kind=None):
+        self._send(["c", repr(canon)[:300], bool(nontrivial), kind])
+
+    def count(self, kind, k=1):
+        self._send(["n", kind, k])
+
+
+def run_forked(ctx, work, timeout):
+    """Run work(child_ctx) in a forked worker under a hard watchdog (SIGKILL): third-party parsers can spin on mutated
+    input where no Python-level alarm gets through.  Returns False when the worker had to be killed."""
+    import json
+    import select
+    r, w = os.pipe()
+    pid = os.fork()
+    if pid == 0:
+        code = 0
+        try:
+            os.close(r)
+            signal.signal(signal.SIGALRM, signal.SIG_DFL)
+            work(_ChildCtx(ctx, w))
+        except BaseException:  # noqa
+            code = 3
+        finally:
+            os._exit(code)
+    os.close(w)
+    deadline = time.time() + timeout
+    buf, alive = b"", True
+    while True:
+        left = deadline - time.time()
+        if left <= 0:
+            alive = False
+            break
+        ready, _, _ = select.select([r], [], [], min(left, 1.0))
+        if ready:
+            chunk = os.read(r, 1 << 16)
+            if not chunk:
+                break
+            buf += chunk
+    if not alive:
+        try:
+            os.kill(pid, signal.SIGKILL)
+        except OSError:
+            pass
+    os.close(r)
+    try:
+        os.waitpid(pid, 0)
+    except OSError:
+        pass
+    for line in buf.split(b"\n"):
+        if not line.strip():
+            continue
+        try:
+            rec = json.loads(line)
+        except ValueError:
+            continue          # a line cut by the kill
+        if rec[0] == "f":
+            ctx.finding(rec[1], rec[2], rec[3])
+        elif rec[0] == "c":
+            ctx.case(rec[1], rec[2], rec[3])
+        elif rec[0] == "n":
+            ctx.count(rec[1], rec[2])
+    return alive
+
+
+def mutate(rng, data: bytes):
+    b = bytearray(data)
+    kind = rng.choice(["flip", "flip", "trunc", "burst", "zero"])
+    if kind == "flip":
+        for _ in range(rng.choice([1, 2, 8])):
+            i = rng.randrange(len(b))
+            b[i] ^= 1 << rng.randrange(8)
+    elif kind == "trunc":
+        b = b[: rng.randrange(max(1, len(b) // 2), len(b))]
+    elif kind == "burst":
+        i = rng.randrange(len(b))
+        for j in range(i, min(len(b), i + rng.choice([4, 16, 64]))):
+            b[j] = rng.randrange(256)
+    else:
+        i = rng.randrange(len(b))
+        b[i:i + 32] = bytes(min(32, len(b) - i))
+    return kind, bytes(b)
+
+
 def run_mutants(ctx):
-    import sharepoint2text as s2t
+    """Mutated-but-accepted fixtures.  The implementation is never called on a mutant in this process: each fixture's
+    mutants run in a forked worker with a hard watchdog (a hang is counted, it is C01/C12's subject, not an alarm here)."""
     from sharepoint2text.parsing import router
     rng = ctx.rng
-    signal.signal(signal.SIGALRM, _alarm)
-    accepted = 0
     per = ctx.n(3, 14)
+    killed = 0
     for f in fixture_files():
         if f.stat().st_size > ctx.n(600_000, 3_000_000) or "password" in str(f):
             continue
@@ -1098,51 +1194,26 @@ def run_mutants(ctx):
             reader = router.get_extractor(str(f))
         except Exception:  # noqa
             continue
-        for k in range(per):
-            b = bytearray(data)
-            kind = rng.choice(["flip", "flip", "trunc", "burst", "zero"])
-            if kind == "flip":
-                for _ in range(rng.choice([1, 2, 8])):
-                    i = rng.randrange(len(b))
-                    b[i] ^= 1 << rng.randrange(8)
-            elif kind == "trunc":
-                b = b[: rng.randrange(max(1, len(b) // 2), len(b))]
-            elif kind == "burst":
-                i = rng.randrange(len(b))
-                for j in range(i, min(len(b), i + rng.choice([4, 16, 64]))):
-                    b[j] = rng.randrange(256)
-            else:
-                i = rng.randrange(len(b))
-                b[i:i + 32] = bytes(min(32, len(b) - i))
-            b = bytes(b)
-            try:
-                signal.alarm(20)
+        mutants = [mutate(rng, data) for _ in range(per)]
+        is_archive = "archives" in f.parts
+
+        def work(cctx, mutants=mutants, reader=reader, f=f, rel=rel, is_archive=is_archive):
+            for kind, b in mutants:
                 try:
                     results = list(reader(io.BytesIO(b), path=str(f)))
-                finally:
-                    signal.alarm(0)
-            except _Timeout:
-                ctx.count("mutant:timeout")
-                continue
-            except BaseException as e:  # noqa  rejected inputs are outside this property
-                if isinstance(e, KeyboardInterrupt):
-                    raise
-                ctx.count("mutant:rejected")
-                continue
-            accepted += 1
-            is_archive = "archives" in f.parts
-            for r in results:
-                try:
-                    signal.alarm(30)
-                    exercise(ctx, r, f"mutant:{rel}", ... if is_archive else str(f),
+                except BaseException:  # noqa  rejected inputs are outside this property
+                    cctx.count("mutant:rejected")
+                    continue
+                cctx.count("mutant:accepted")
+                for r in results:
+                    exercise(cctx, r, f"mutant:{rel}", ... if is_archive else str(f),
                              {"file": rel, "mutation": kind, "mutant_bytes": b if len(b) < 200_000 else None,
-                              "call": f"{reader.__name__}(io.BytesIO(mutant_bytes), path=file)"},
-                             check_size=True)
-                except _Timeout:
-                    ctx.count("mutant:sweep-timeout")
-                finally:
-                    signal.alarm(0)
-    ctx.extra["mutants_accepted"] = accepted
+                              "call": f"{reader.__name__}(io.BytesIO(mutant_bytes), path=file)"}, check_size=True)
+        if not run_forked(ctx, work, timeout=ctx.n(40, 120)):
+            killed += 1
+            ctx.count("mutant:worker-killed-by-watchdog")
+    ctx.extra["mutants_accepted"] = ctx.hist.get("mutant:accepted", 0)
+    ctx.extra["mutant_workers_killed"] = killed
 
 
 def rewrite_zip(src: Path, repl: dict) -> bytes:
@@ -1312,11 +1383,227 @@ def run_archives(ctx, s2t, res):
     return cterms, cinfos
 
 
+# ------------------------------------------------------------------------------------------------ generated EPUBs / ODF picture types
+def make_epub(spine, extra_manifest=()):
+    """spine: [(item id, itemref attributes dict, kind)] with kind in xhtml | empty | missing | image | dup.
+    Every xhtml chapter carries a unique text."""
+    man, refs, files = [], [], {}
+    seen = set()
+    for k, (iid, attrs, kind) in enumerate(spine):
+        a = "".join(f' {k_}="{v}"' for k_, v in attrs.items())
+        refs.append(f'<itemref idref="{iid}"{a}/>')
+        if iid in seen or kind == "missing":
+            continue
+        seen.add(iid)
+        if kind == "image":
+            man.append(f'<item id="{iid}" href="img/{iid}.png" media-type="image/png"/>')
+            files[f"OEBPS/img/{iid}.png"] = _tiny_png()
+        else:
+            man.append(f'<item id="{iid}" href="text/{iid}.xhtml" media-type="application/xhtml+xml"/>')
+            body = "" if kind == "empty" else f"<h1>Title of {iid}</h1><p>Body text of {iid}, item {k}.</p>"
+            files[f"OEBPS/text/{iid}.xhtml"] = (f'<?xml version="1.0" encoding="utf-8"?><html xmlns="http://www.w3.org/1999/xhtml"><head><title>{iid}</title>'
+                                                 f"</head><body>{body}</body></html>").encode("utf-8")
+    for x in extra_manifest:
+        man.append(x)
+    opf = ('<?xml version="1.0" encoding="utf-8"?><package xmlns="http://www.idpf.org/2007/opf" version="3.0" unique-identifier="id">'
+           '<metadata xmlns:dc="http://purl.org/dc/elements/1.1/"><dc:title>Generated</dc:title><dc:identifier id="id">c04</dc:identifier>'
+           "<dc:language>en</dc:language></metadata><manifest>" + "".join(man) + '</manifest><spine>' + "".join(refs) + "</spine></package>")
+    out = io.BytesIO()
+    with zipfile.ZipFile(out, "w", zipfile.ZIP_DEFLATED) as z:
+        z.writestr(zipfile.ZipInfo("mimetype"), "application/epub+zip")
+        z.writestr("META-INF/container.xml", '<?xml version="1.0"?><container version="1.0" xmlns="urn:oasis:names:tc:opendocument:xmlns:container">'
+                   '<rootfiles><rootfile full-path="OEBPS/content.opf" media-type="application/oebps-package+xml"/></rootfiles></container>')
+        z.writestr("OEBPS/content.opf", opf)
+        for n, d in files.items():
+            z.writestr(n, d)
+    return out.getvalue()
+
+
+def _tiny_png() -> bytes:
+    import struct
+    import zlib
+
+    def chunk(kind, data):
+        body = kind + data
+        return struct.pack(">I", len(data)) + body + struct.pack(">I", zlib.crc32(body))
+    return (b"\x89PNG\r\n\x1a\n" + chunk(b"IHDR", struct.pack(">IIBBBBB", 2, 2, 8, 0, 0, 0, 0))
+            + chunk(b"IDAT", zlib.compress(b"\x00\x10\x20\x00\x30\x40")) + chunk(b"IEND", b""))
+
+
+def epub_corpus(ctx):
+    """Spine grammar: every itemref attribute form (linear yes/no in several spellings, properties, id), at the first,
+    a middle and the last position; missing, empty, image and duplicate items."""
+    rng = ctx.rng
+    lin = [{}, {"linear": "yes"}, {"linear": "no"}, {"linear": "NO"}, {"linear": " no "}, {"linear": "maybe"}, {"properties": "page-spread-left"},
+           {"id": "ref1", "linear": "no"}]
+    kinds = ["xhtml", "xhtml", "xhtml", "empty", "missing", "image", "dup"]
+    out = []
+    for a in lin:                                     # the attribute form at the head, in the middle, at the end
+        out.append([("cover", a, "xhtml"), ("c1", {}, "xhtml"), ("c2", {}, "xhtml")])
+        out.append([("c1", {}, "xhtml"), ("note", a, "xhtml"), ("c2", {}, "xhtml")])
+        out.append([("c1", {}, "xhtml"), ("c2", {}, "xhtml"), ("back", a, "xhtml")])
+    out.append([("a", {"linear": "no"}, "xhtml"), ("b", {"linear": "no"}, "xhtml")])          # nothing linear at all
+    out.append([("a", {"linear": "no"}, "empty"), ("b", {"linear": "no"}, "xhtml"), ("c", {}, "xhtml")])
+    for _ in range(ctx.n(25, 250)):
+        n = rng.randint(1, 6)
+        sp = []
+        for i in range(n):
+            kind = rng.choice(kinds)
+            iid = sp[-1][0] if (kind == "dup" and sp) else f"i{i}"
+            sp.append((iid, rng.choice(lin), "xhtml" if kind == "dup" else kind))
+        out.append(sp)
+    return out
+
+
+def run_epubs(ctx, s2t):
+    for k, spine in enumerate(epub_corpus(ctx)):
+        data = make_epub(spine)
+        try:
+            results = list(s2t.read_epub(io.BytesIO(data), path=None))
+        except Exception:  # noqa
+            ctx.count("hostile:rejected")
+            continue
+        for r in results:
+            exercise(ctx, r, "generated-epub", None,
+                     {"spine": [(i, a, kd) for i, a, kd in spine], "how": "tools/props/c04.py make_epub(spine)", "call": "read_epub"})
+
+
+def odf_with_picture_extension(src: Path, ext: str) -> bytes:
+    """The ODF package with every Pictures/* member renamed to the given extension (content.xml, styles.xml and the
+    manifest follow): picture types the platform's mimetypes table may or may not know."""
+    out = io.BytesIO()
+    with zipfile.ZipFile(src) as zin:
+        pics = [n for n in zin.namelist() if n.startswith("Pictures/") and "." in n.rsplit("/", 1)[-1]]
+        ren = {n: n.rsplit(".", 1)[0] + ext for n in pics}
+        with zipfile.ZipFile(out, "w", zipfile.ZIP_DEFLATED) as zout:
+            for it in zin.infolist():
+                d = zin.read(it.filename)
+                name = ren.get(it.filename, it.filename)
+                if it.filename.endswith(".xml"):
+                    x = d.decode("utf-8")
+                    for a, b in ren.items():
+                        x = x.replace(a, b)
+                    d = x.encode("utf-8")
+                zout.writestr(name, d, compress_type=zipfile.ZIP_STORED if name == "mimetype" else zipfile.ZIP_DEFLATED)
+    return out.getvalue()
+
+
+PICTURE_EXTS = [".svm", ".wdp", ".pct", ".emf", ".wmf", ".bin", ".PNG", ".jpeg2", ""]
+
+
+def digest(r):
+    """Canonical, comparable value of everything the accessors of a result return (no addresses, no paths)."""
+    import hashlib
+
+    def img(i):
+        b = i.get_bytes()
+        p0 = b.tell()
+        d = b.read()
+        b2 = i.get_bytes()
+        p1 = b2.tell()
+        d2 = b2.read()
+        b2.seek(0)
+        md = i.get_metadata()
+        return (p0, len(d), hashlib.sha1(d).hexdigest()[:12], p1, len(d2), getattr(i, "size_bytes", None), i.get_content_type(), i.get_caption(),
+                i.get_description(), tuple(sorted((k, repr(v)) for k, v in dict.items(md))))
+
+    def tab(x):
+        dm = x.get_dim()
+        return (dm.rows, dm.columns, repr(x.get_table())[:400])
+    units = []
+    for u in r.iterate_units():
+        um = u.get_metadata()
+        units.append((u.get_text(), getattr(um, "unit_number", None), tuple(img(i) for i in u.get_images()), tuple(tab(x) for x in u.get_tables())))
+    md = r.get_metadata()
+    mdd = {k: repr(v) for k, v in (md.to_dict() if hasattr(md, "to_dict") else vars(md)).items()
+           if k not in ("file_path", "folder_path", "filename", "file_extension")}
+    return (type(r).__name__, r.get_full_text(), tuple(units), tuple(img(i) for i in r.iterate_images()),
+            tuple(tab(x) for x in r.iterate_tables()), tuple(sorted(mdd.items())))
+
+
+def run_env(ctx, tb):
+    """The accessor results must not depend on the environment (common.env_sweep: DEBUG logging, worker thread, time
+    zones, cwd).  Sampled: one small fixture per format, ODF packages with every picture renamed to extensions the
+    mimetypes table may not know, generated EPUBs and RTFs, and type-directed image instances of all ten classes
+    (stream pre-positioned, content types incl. application/octet-stream)."""
+    import sharepoint2text as s2t
+    from sharepoint2text.parsing import router
+    from sharepoint2text.parsing.extractors import data_types as dt
+    rng = ctx.rng
+    res = common.REPO / "sharepoint2text" / "tests" / "resources"
+    docs = []                                                    # (label, extension, bytes)
+    seen_ext = set()
+    for f in fixture_files():
+        e = f.suffix.lower()
+        if e in seen_ext or f.stat().st_size > 120_000 or "password" in str(f) or "archives" in f.parts or e in (".pdf", ".7z"):
+            continue
+        seen_ext.add(e)
+        docs.append(("fixture:" + f.name, f.name, f.read_bytes()))
+    for rel in ("open_office/image_extraction.odt", "open_office/image_extraction.odp", "open_office/image_extraction.ods", "open_office/drawing.odg"):
+        src = res / rel
+        if src.exists():
+            for ext in (PICTURE_EXTS if ctx.tier == "thorough" else rng.sample(PICTURE_EXTS, 3) + [".svm"]):
+                try:
+                    docs.append((f"{Path(rel).name} pictures renamed to *{ext}", Path(rel).name, odf_with_picture_extension(src, ext)))
+                except Exception:  # noqa
+                    pass
+    for sp in epub_corpus(ctx)[:6]:
+        docs.append((f"generated epub {[(i, a) for i, a, _ in sp]}", "x.epub", make_epub(sp)))
+    docs.append(("rtf pair", "x.rtf", b"{\\rtf1 \\u55357?\\u56832? x\\page y{\\info{\\title T}{\\creatim\\yr2020\\mo1\\dy2\\hr3\\min4}}}"))
+
+    def doc_fn(case):
+        label, name, data = case
+        reader = router.get_extractor(name)
+        return tuple(digest(r) for r in reader(io.BytesIO(data), path=None))
+    # the statement's right-hand side on the same documents (unknown picture types included), then the sweep
+    for label, name, data in docs:
+        try:
+            for r in router.get_extractor(name)(io.BytesIO(data), path=None):
+                exercise(ctx, r, "env-sample:" + label.split(":")[0].split(" pictures")[0], None, {"document": label, "bytes": data if len(data) < 150_000 else None})
+        except Exception:  # noqa
+            ctx.count("env-sample:rejected")
+    common.env_sweep(ctx, "document-accessors", doc_fn, docs, describe=lambda c: c[0])
+
+    hints = {c: typing.get_type_hints(getattr(dt, c)) for c in IMG_CLASSES}
+    ctypes_ = ["application/octet-stream", "image/png", "image/unknown", "", " image/jpeg ", "emf"]
+    specs = []
+    for cname in IMG_CLASSES:
+        f = IMG_FIELDS[cname]
+        dk = hint_kind(hints[cname][f[2]])
+        for ct in ctypes_:
+            for blob in (b"", b"abc", bytes(range(20))):
+                for p0 in (0, 2):
+                    specs.append((cname, ct, blob, p0, dk))
+    rng.shuffle(specs)
+    specs = specs[:ctx.n(240, 720)]
+
+    def img_fn(case):
+        cname, ct, blob, p0, dk = case
+        f = IMG_FIELDS[cname]
+        kw = {f[0]: 1, f[1]: ct}
+        if dk in ("Bytes", "OptBytes"):
+            kw[f[2]] = blob
+        else:
+            st = io.BytesIO(blob)
+            st.seek(p0)
+            kw[f[2]] = st
+        if f[3]:
+            kw[f[3]] = len(blob)
+        i = getattr(dt, cname)(**kw)
+        b = i.get_bytes()
+        p = b.tell()
+        d = b.read()
+        b2 = i.get_bytes()
+        return (p, d, b2.tell(), b2.read(), i.get_content_type(), i.get_caption(), i.get_description(), sorted(dict.items(i.get_metadata()), key=repr))
+    common.env_sweep(ctx, "image-accessors", img_fn, specs, describe=lambda c: repr(c[:4]))
+
+
 def run_hostile_docs(ctx):
     """Generated hostile-content documents: huge ODF lengths, control characters, stored document properties."""
     import sharepoint2text as s2t
     res = common.REPO / "sharepoint2text" / "tests" / "resources"
     run_label_docs(ctx, s2t, res)
+    run_epubs(ctx, s2t)
     run_doc_captions(ctx, s2t, res)
     cterms, cinfos = run_archives(ctx, s2t, res)
     corr(ctx, "archive_member_path", "(path_case path_guard)", cterms, cinfos,
@@ -1676,6 +1963,9 @@ def run_summary(ctx, tb):
         def get_metadata(self):
             return self.meta
 
+        def exists(self, name):       # no property-set streams to pre-check (util/ole_text.read_ole_metadata)
+            return False
+
         def __enter__(self):
             return self
 
@@ -1783,7 +2073,7 @@ def run_summary(ctx, tb):
 def run_instances(ctx, tb):
     from sharepoint2text.parsing.extractors import data_types as dt
     rng = ctx.rng
-    strs = ["", "image/png", " image/jpeg ", "\tx\n", "PNG", "Jpeg", "wmf", "unknown", "\u00fc\u4e2d", "\u2003pad\u2003", "a b", "EMF", "\u0130"]
+    strs = ["", "image/png", " image/jpeg ", "application/octet-stream", "\tx\n", "PNG", "Jpeg", "wmf", "unknown", "\u00fc\u4e2d", "\u2003pad\u2003", "a b", "EMF", "\u0130"]
     lens = [None, "", "10cm", "2.5in", "0cm", "abc", "9" * 400 + "cm", "1" + "0" * 308 + "in", " 3 mm ", "12pt", "1pc", "5", "0.4px", "\u0663cm"]
     ints = [0, 1, -1, 7, 14, 15, 16, 1440, 2 ** 40, -15]
     blobs = [b"", b"\x00", b"abc", bytes(range(7))]
@@ -2032,7 +2322,7 @@ def run(ctx):
     ctx.extra["prove_s"] = round(_t.time() - _t0, 1)
     import time
     stage = {}
-    for fn in (run_odf, run_paths, run_rtf, run_rtf_text, run_meta, run_summary, run_imeta, run_instances):
+    for fn in (run_odf, run_paths, run_rtf, run_rtf_text, run_meta, run_summary, run_imeta, run_instances, run_env):
         t0 = time.time()
         fn(ctx, tb)
         stage[fn.__name__] = round(time.time() - t0, 1)
